@@ -104,7 +104,12 @@ class ComponentLevel3( ComponentLevel2 ):
     # error message, we set the line number of update block
     # Shunning: bugfix:
 
-    blk_name = "_lambda__{}".format( repr(o).replace(".","_").replace("[", "_").replace("]", "_").replace(":", "_") )
+    # The file name (key of linecache) contains the full signal
+    # name to avoid conflicts. The name of the block is relative to the
+    # host component, like the name of any other update block: otherwise
+    # the translated text of a module depends on where it is instantiated.
+    blk_file = "_lambda__{}".format( repr(o).replace(".","_").replace("[", "_").replace("]", "_").replace(":", "_") )
+    blk_name = "_lambda__s{}".format( repr(o)[len(repr(s)):].replace(".","_").replace("[", "_").replace("]", "_").replace(":", "_") )
     lambda_upblk = ast.FunctionDef(
       name=blk_name,
       args=ast.arguments(args=[], vararg=None, kwonlyargs=[], kw_defaults=[], posonlyargs=[], kwarg=None, defaults=[]),
@@ -182,13 +187,13 @@ class ComponentLevel3( ComponentLevel2 ):
     # the correct free variables in its closure.
 
     dict_local = {}
-    custom_exec( compile(new_root, blk_name, "exec"), lamb.__globals__, dict_local )
+    custom_exec( compile(new_root, blk_file, "exec"), lamb.__globals__, dict_local )
     blk = dict_local[ 'closure' ]( lamb.__closure__ )
 
     # Add the source code to linecache for the compiled function
 
     new_src = "def {}():\n {}\n".format( blk_name, src.replace("//=", "@=") )
-    linecache.cache[ blk_name ] = (len(new_src), None, new_src.splitlines(), blk_name)
+    linecache.cache[ blk_file ] = (len(new_src), None, new_src.splitlines(), blk_file)
 
     ComponentLevel1._update( s, blk )
 
